@@ -73,6 +73,8 @@ fn parse_script(s: &str) -> VecDeque<Act> {
             b'i' => Act::Fail(ErrorKind::Interrupted),
             b'o' => Act::Fail(ErrorKind::Other),
             b'b' => Act::Fail(ErrorKind::WouldBlock),
+            b'u' => Act::Fail(ErrorKind::UnexpectedEof),
+            b'y' => Act::Fail(ErrorKind::WriteZero),
             _ => panic!("bad script token"),
         };
         v.push_back(a);
